@@ -1404,6 +1404,74 @@ Proof.
     unfold thread_step; cbv beta zeta; rewrite P; reflexivity.
 Qed.
 
+(** * 10e. No handshake ends with the empty certificate and a nil error *)
+(** no goroutine ever carries or returns the empty certificate with a nil error *)
+Definition res_pc (p : pc) : option res :=
+  match p with
+  | PObtUnblock _ r | PRenUnblock _ _ r _ | PRet r | PDone r => Some r
+  | _ => None
+  end.
+Definition EInv (s : state) : Prop := forall t th, thr s t = Some th -> res_pc (t_pc th) <> Some REmpty.
+
+Lemma final_res_not_empty x r : r <> REmpty -> final_res x r <> REmpty.
+Proof. destruct x, r; cbn; try congruence; try (destruct (expired c); congruence); try (destruct (expired c0); congruence). Qed.
+
+Lemma step_noempty_self s t th a s' : thread_step s t th a = Some s' ->
+  res_pc (t_pc th) <> Some REmpty ->
+  exists th', thr s' t = Some th' /\ res_pc (t_pc th') <> Some REmpty.
+Proof.
+  intros H N. unfold thread_step in H.
+  destruct (t_pc th) eqn:P; destruct a; try discriminate; split_step H; inv H; cbn;
+    rewrite ?upd_same;
+    try (rewrite upd_other, upd_same by (apply andb_true_iff in G as [G _]; apply negb_true_iff in G; apply Nat.eqb_neq in G; congruence));
+    eexists; (split; [reflexivity|]); cbn; try discriminate;
+    try (intros E; inv E; apply N; reflexivity);
+    try (intros E; injection E as E; revert E; apply final_res_not_empty; intros E; apply N; cbn; congruence).
+Qed.
+
+Lemma step_noempty_other s t th a s' : thread_step s t th a = Some s' ->
+  forall x thx, x <> t -> thr s' x = Some thx -> thr s x = Some thx \/ res_pc (t_pc thx) = None.
+Proof.
+  intros H x thx Nx Hx. unfold thread_step in H.
+  destruct (t_pc th) eqn:P; destruct a; try discriminate; split_step H; inv H; cbn in Hx;
+    try (rewrite upd_other in Hx by exact Nx; left; exact Hx).
+  destruct (Nat.eq_dec x b) as [->|Nb].
+  - rewrite upd_same in Hx. inv Hx. right. reflexivity.
+  - rewrite upd_other in Hx by exact Nb. rewrite upd_other in Hx by exact Nx. left; exact Hx.
+Qed.
+
+Lemma einv_step s l s' : EInv s -> step s l = Some s' -> EInv s'.
+Proof.
+  intros W H. destruct l; cbn in H.
+  - destruct (thr s t) as [th|] eqn:Ht; [|discriminate].
+    intros x thx Hx. destruct (Nat.eq_dec x t) as [->|Nx].
+    + destruct (step_noempty_self _ _ _ _ _ H (W _ _ Ht)) as (th' & Ht' & E). rewrite Ht' in Hx. inv Hx. exact E.
+    + destruct (step_noempty_other _ _ _ _ _ H x thx Nx Hx) as [Hs|E]; [exact (W _ _ Hs)|rewrite E; discriminate].
+  - apply guard_some in H as [G H]. inv H. intros x thx Hx. cbn in Hx.
+    destruct (Nat.eq_dec x t) as [->|Nx].
+    + rewrite upd_same in Hx. inv Hx. discriminate.
+    + rewrite upd_other in Hx by exact Nx. exact (W _ _ Hx).
+  - apply guard_some in H as [G H]. inv H. exact W.
+  - inv H. exact W.
+  - inv H. exact W.
+  - inv H. exact W.
+  - inv H. exact W.
+Qed.
+
+Lemma einv_run ls : forall s s', EInv s -> run s ls = Some s' -> EInv s'.
+Proof.
+  induction ls as [|l ls IH]; intros s s' W H; cbn in H; [inv H; exact W|].
+  destruct (step s l) as [s1|] eqn:E; [|discriminate]. eapply IH; [|exact H]. eapply einv_step; eauto.
+Qed.
+
+Theorem no_empty_result s : reachable s ->
+  forall t th, thr s t = Some th -> t_pc th <> PDone REmpty.
+Proof.
+  intros (c0 & s0 & f0 & ls & H) t th Ht E.
+  assert (W : EInv s) by (eapply einv_run; [|exact H]; intros x thx Hx; discriminate).
+  apply (W t th Ht). rewrite E. reflexivity.
+Qed.
+
 (** * The statement shapes of the source the LTS was written against (translator item
     c13EmitC13Shape): every re-entry into getCertDuringHandshake passes loadOrObtainIfNecessary =
     false; each of the three release sections is Lock; close(wait); delete(map, name); Unlock (one
